@@ -5,5 +5,6 @@ CONSTANTS LabelMax = 63
           Devs = {}
           Blocks = {"ids", "rest"}
           Lite = FALSE
+          Rich = TRUE
 INVARIANTS Checks
 CHECK_DEADLOCK FALSE
